@@ -138,6 +138,10 @@ def run(ctx, repo):
                 if len(defs_) == 1 and isinstance(defs_[0], ast.Call) and isinstance(defs_[0].func, ast.Attribute) and defs_[0].func.attr in ('upper', 'lower') \
                         and ast.unparse(defs_[0].func.value) == param_:
                     tr = defs_[0].func.attr
+                elif len(defs_) == 1 and (ast.unparse(defs_[0]) == param_ or (
+                        isinstance(defs_[0], ast.Call) and isinstance(defs_[0].func, ast.Attribute) and defs_[0].func.attr == 'strip'
+                        and not defs_[0].args and ast.unparse(defs_[0].func.value) == param_)):
+                    tr = 'id'          # an alias, or the code without outer blanks (accepted codes of the domain have none)
                 else:
                     raise AnalysisError('discipline_sort_key: the patterns are searched in %s, whose relation to the code is not modelled' % nm)
             else:
